@@ -194,7 +194,8 @@ Lemma row_edge_sim phi sr sc g k cls n tgt d c n' k1 ks rt sc' :
   c_cname c = [] -> dest_sim phi (cuu sc) tgt d ->
   apply_row_edge nab n cls c tgt = Some n' ->
   row_add_exit fresh sc g k1 ks rt d c = Ok sc' ->
-  exists phi', Sim phi' (RowSem.set_node sr k n') sc' /\ phi_le phi phi' /\ length phi' = length phi.
+  exists phi', Sim phi' (RowSem.set_node sr k n') sc' /\ phi_le phi phi'
+               /\ (forall k0 c1, k0 <> k -> nth_error phi k0 = Some c1 -> nth_error phi' k0 = Some c1).
 Proof.
   intros Hsim Hst Hg Hgc Hk Hcn Hd Href Hcomp.
   destruct (exit_view_of phi sr sc g k cls n k1 ks rt Hsim Hg Hgc Hk) as (c0 & Hc0 & -> & -> & Hv).
@@ -206,7 +207,7 @@ Proof.
     destruct (cond_blank c) eqn:Eb; cbn [andb negb] in Hcomp.
     + (* the default continuation *)
       injection Href as <-. unfold node_update_default in Hcomp. rewrite Hb in Hcomp. cbn in Hcomp. injection Hcomp as <-.
-      exists phi. split; [|split; [apply phi_le_refl|reflexivity]].
+      exists phi. split; [|split; [apply phi_le_refl|auto]].
       eapply Sim_set; eauto.
       * destruct c0 as [a [b|]]; cbn in *; [discriminate|left; reflexivity].
       * rewrite Hb. exact I.
@@ -244,7 +245,7 @@ Proof.
       destruct (dec_sim_add_case fresh fresh_inj phi' uu' (S n1) _ _ _ variable (c_type c) (c_value c) [Some (c_value c)] tgt d r2 n3
                   Hds1 ltac:(constructor) Hok1 Hd') as [Hds2 Hpl2].
       { rewrite Hcn in Ea. exact Ea. }
-      exists phi'. split; [|split; [exact Hple|unfold phi'; apply update_length]].
+      exists phi'. split; [|split; [exact Hple|intros k0 c1 Hne0 H0; unfold phi'; rewrite update_nth_other by exact Hne0; exact H0]].
       (* the reference node *)
       assert (En' : n' = mkRNode (rn_actions n)
                      (Some (add_case nab (set_default (fresh_dec variable (match timeout with None => WNone | Some _ => WMsg end) DNone) (rn_cont n))
@@ -268,7 +269,7 @@ Proof.
       destruct Href' as [Hne ->].
       unfold node_update_default in Hcomp. rewrite Hb in Hcomp.
       assert (clsr <> SEnter) by (destruct Hcl as [[-> _]|[[-> ->]|[-> _]]]; [discriminate|contradiction|discriminate]).
-      destruct clsr; try contradiction; injection Hcomp as <-; exists phi; (split; [|split; [apply phi_le_refl|reflexivity]]);
+      destruct clsr; try contradiction; injection Hcomp as <-; exists phi; (split; [|split; [apply phi_le_refl|auto]]);
         (eapply Sim_dec_update; eauto); try (apply dec_sim_set_default; assumption); try (apply shape_set_default; assumption).
     + destruct Hcl as [[-> Hcr]|[[-> ->]|[-> ->]]].
       * (* a plain router: wait_for_response / split rows, the implicit router of an action row *)
@@ -279,37 +280,37 @@ Proof.
         destruct (str_eqb (lower (c_value c)) s_no_response) eqn:Enr.
         -- subst n'. unfold noresp_edge. destruct (rd_noresp d0) as [[nm x]|] eqn:Enp.
            ++ destruct (wait_sim_noresp_some _ _ _ _ _ _ Hds Enp) as (t & cw & Ew). rewrite Ew in Hcomp. injection Hcomp as <-.
-              exists phi. split; [|split; [apply phi_le_refl|reflexivity]].
+              exists phi. split; [|split; [apply phi_le_refl|auto]].
               eapply Sim_dec_update; eauto; try (eapply dec_sim_noresp; eauto); try exact Hsh.
            ++ pose proof (wait_sim_noresp_none _ _ _ _ Hds Enp) as Hw.
               destruct (sw_wait r); try contradiction; injection Hcomp as <-;
-                (exists phi; split; [rewrite set_node_same by exact Hk; exact Hsim|split; [apply phi_le_refl|reflexivity]]).
+                (exists phi; split; [rewrite set_node_same by exact Hk; exact Hsim|split; [apply phi_le_refl|auto]]).
         -- subst n'.
            destruct (sw_add_choice fresh (cs_next sc) r _ _ _ _ _ _) as [[r' n1]|x] eqn:Ea; [|discriminate]. injection Hcomp as <-.
            destruct (plain_edge_dec phi (cuu sc) _ _ cls rt d0 r c tgt d r' n1 Hds Hsh Hok Hcn Hd Hcr Ea) as [Hds' Hpl'].
-           exists phi. split; [|split; [apply phi_le_refl|reflexivity]].
+           exists phi. split; [|split; [apply phi_le_refl|auto]].
            eapply Sim_dec_update; eauto.
       * (* start_new_flow *)
         destruct Hsh as (x & Ecats). cbn [apply_row_edge] in Href. rewrite Eb, Hdec in Href.
         destruct (str_eqb (lower (c_value c)) s_complete || str_eqb (lower (c_value c)) s_completed).
         -- destruct (dec_sim_set_named phi (cuu sc) d0 r s_Complete x tgt d Hds Ecats Hd) as (Hex & Hds' & Hfc).
            rewrite Hfc in Href. injection Href as <-. rewrite Hex in Hcomp. injection Hcomp as <-.
-           exists phi. split; [|split; [apply phi_le_refl|reflexivity]].
+           exists phi. split; [|split; [apply phi_le_refl|auto]].
            eapply Sim_dec_update; eauto. exists tgt. cbn. rewrite Ecats. reflexivity.
         -- destruct (str_eqb (lower (c_value c)) s_expired).
-           ++ injection Href as <-. injection Hcomp as <-. exists phi. split; [|split; [apply phi_le_refl|reflexivity]].
+           ++ injection Href as <-. injection Hcomp as <-. exists phi. split; [|split; [apply phi_le_refl|auto]].
               eapply Sim_dec_update; eauto; try (apply dec_sim_set_default; assumption); try (exists x; exact Ecats).
-           ++ injection Href as <-. injection Hcomp as <-. exists phi. split; [rewrite set_node_same by exact Hk; exact Hsim|split; [apply phi_le_refl|reflexivity]].
+           ++ injection Href as <-. injection Hcomp as <-. exists phi. split; [rewrite set_node_same by exact Hk; exact Hsim|split; [apply phi_le_refl|auto]].
       * (* call_webhook / transfer_airtime *)
         destruct Hsh as (x & Ecats). cbn [apply_row_edge] in Href. rewrite Eb, Hdec in Href.
         destruct (str_eqb (lower (c_value c)) s_success).
         -- destruct (dec_sim_set_named phi (cuu sc) d0 r s_Success x tgt d Hds Ecats Hd) as (Hex & Hds' & Hfc).
            rewrite Hfc in Href. injection Href as <-. rewrite Hex in Hcomp. injection Hcomp as <-.
-           exists phi. split; [|split; [apply phi_le_refl|reflexivity]].
+           exists phi. split; [|split; [apply phi_le_refl|auto]].
            eapply Sim_dec_update; eauto. exists tgt. cbn. rewrite Ecats. reflexivity.
         -- destruct (str_eqb (lower (c_value c)) s_failure).
-           ++ injection Href as <-. injection Hcomp as <-. exists phi. split; [|split; [apply phi_le_refl|reflexivity]].
+           ++ injection Href as <-. injection Hcomp as <-. exists phi. split; [|split; [apply phi_le_refl|auto]].
               eapply Sim_dec_update; eauto; try (apply dec_sim_set_default; assumption); try (exists x; exact Ecats).
-           ++ injection Href as <-. injection Hcomp as <-. exists phi. split; [rewrite set_node_same by exact Hk; exact Hsim|split; [apply phi_le_refl|reflexivity]].
+           ++ injection Href as <-. injection Hcomp as <-. exists phi. split; [rewrite set_node_same by exact Hk; exact Hsim|split; [apply phi_le_refl|auto]].
 Qed.
 End Edge.
